@@ -171,6 +171,32 @@ def main(out_v, out_json):
     g.rx("req_min_frames", reqsrc, r"if m\.len\(\) <\s*" + NUM)
     g.rx("rep_min_frames", rd("src/rep.rs"), r"if m\.len\(\) <\s*" + NUM)
 
+    # structure of the disconnect / subscription paths (C13, C16)
+    subsrc = rd("src/sub.rs")
+    dealersrc = rd("src/dealer.rs")
+    routersrc = rd("src/router.rs")
+    def pd_body(src):
+        return fn_body(src, r"fn peer_disconnected\(&self")
+    g.put("rep_disconnect_removes_stream", 1 if re.search(r"fair_queue_inner\.lock\(\)\.remove\(peer_id\)", pd_body(repsrc) or "") else 0, "syntax")
+    g.put("sub_disconnect_removes_stream", 1 if re.search(r"inner\.lock\(\)\.remove\(peer_id\)", pd_body(subsrc) or "") else 0, "syntax")
+    drecv = fn_body(dealersrc, r"async fn recv\(&mut self\)")
+    g.put("dealer_error_disconnects", 1 if drecv and re.search(r"Err\(e\)\)\) => \{\s*self\.backend\.peer_disconnected\(&peer_id\)", drecv) else 0, "syntax")
+    rsend = fn_body(routersrc, r"async fn send\(&mut self")
+    g.put("router_send_error_disconnects", 1 if rsend and re.search(r"is_err\(\)\s*\{[^}]*peer_disconnected", rsend, re.S) else 0, "syntax")
+    repsend = fn_body(repsrc, r"async fn send\(&mut self")
+    g.put("rep_send_error_disconnects", 1 if repsend and re.search(r"is_err\(\)\s*\{[^}]*peer_disconnected", repsend, re.S) else 0, "syntax")
+    reqsend = fn_body(reqsrc, r"async fn send\(&mut self")
+    g.put("req_send_error_disconnects", 1 if reqsend and re.search(r"if let Err\(e\) = result\s*\{[^}]*peer_disconnected", reqsend, re.S) else 0, "syntax")
+    g.put("req_recv_error_disconnects", 1 if reqrecv and re.search(r"ZmqError::NoMessage\)\)\s*\{[^}]*peer_disconnected", reqrecv, re.S) else 0, "syntax")
+    subsub = fn_body(subsrc, r"pub async fn subscribe\(")
+    subuns = fn_body(subsrc, r"pub async fn unsubscribe\(")
+    g.put("sub_subscribe_only_on_change", 1 if subsub and re.search(r"if !self\.backend\.subs\.lock\(\)\.insert\([^)]*\)\)?\s*\{\s*return Ok", subsub) else 0, "syntax")
+    g.put("sub_unsubscribe_only_on_change", 1 if subuns and re.search(r"if !self\.backend\.subs\.lock\(\)\.remove\([^)]*\)\s*\{\s*return Ok", subuns) else 0, "syntax")
+    psubs = fn_body(subsrc, r"async fn process_subs\(")
+    g.put("sub_update_stops_at_error", None if psubs is None else len(re.findall(r"\.await\?", psubs)), "syntax")
+    pconn = fn_body(subsrc, r"async fn peer_connected\(")
+    g.put("sub_replay_unwraps", None if pconn is None else len(re.findall(r"\.unwrap\(\)", pconn)), "syntax")
+
     # pinned asynchronous-codec
     lock = rd("Cargo.lock")
     mv = re.search(r'name = "asynchronous-codec"\nversion = "([^"]+)"', lock)
